@@ -359,7 +359,7 @@ PROPS = {
         "module": "core", "pkg": "./checks", "level": "exploration",
         "jobs": [
             {"test": "TestC20", "quick": 70, "thorough": 8000, "shards_thorough": 14, "race": True, "timeout_quick": 1200},
-            {"test": "TestC20Box", "quick": 60, "thorough": 2400, "shards_thorough": 14, "race": True},
+            {"test": "TestC20Box", "quick": 120, "thorough": 4000, "shards_thorough": 14, "race": True},
         ],
         "rule": "Built with -race (GORACE=halt_on_error=1), real time, threshold.SyncInterval = 2 ms: real LoudScheme/SilentScheme nodes (n in 3..4; "
                 "BLS, PS, scripted backend) on a network with ONE DISPATCHER GOROUTINE PER INCOMING LINK of every node, so HandleMessage runs "
